@@ -17,6 +17,8 @@ def run(tier):
         fams.append(("clos", p, root, None))
     for p, root in gen_clos.goto_loop_cases():
         fams.append(("gotoloop", p, root, None))
+    for p, root in gen_clos.late_capture_cases():
+        fams.append(("latecapture", p, root, None))
     for p, root in gen_clos.selfref_cases():
         fams.append(("selfref", p, root, None))
     for p, root in gen_clos.retry_cases():
